@@ -178,7 +178,9 @@ pub fn drive(ctx: &Ctx, suite: &Suite, oracle: Oracle) {
         ctx.class_n("sweep: 8-bit windows x 256 values", total as u64);
     }
     if suite.sweep16 {
-        let bases: Vec<Vec<u8>> = shapes.iter().filter(|s| s.df & 0x10 != 0).map(|s| base_frame(s, ctx.seed ^ 1)).collect();
+        // one base per reader: DF17 with every type code / subtype / version, DF20 / DF21 / DF16 with every register
+        // template (random fill); DF18 shares the ME reader with DF17 and the extreme fills add nothing to a window sweep
+        let bases: Vec<Vec<u8>> = shapes.iter().filter(|s| s.df & 0x10 != 0 && s.df != 18 && s.extreme == 0).map(|s| base_frame(s, ctx.seed ^ 1)).collect();
         let per: usize = 6 * 65536;
         let total = bases.len() * per;
         par_judge(
